@@ -39,7 +39,8 @@ package fox
 
 //@ func (*cTx).CloneWith props C12 partial
 //@   requires c != nil && c.tree != nil && c.params != nil && c.tsrParams != nil
-//@   modifies cTx.req, cTx.w, cTx.route, cTx.scope, cTx.cachedQuery, cTx.tsr, C[Params], E[Param]
+//@   modifies cTx.req, cTx.w, cTx.route, cTx.scope, cTx.cachedQuery, cTx.tsr, C[Params], E[Param], released
+//@   ensures live: !released[result]
 //@   assume-at call copyWithResize[github.com/tigerwill90/fox.Params github.com/tigerwill90/fox.Param]#1 : pool-discipline: cp != nil && cp != c && cp.params != nil && cp.tsrParams != nil && cp.params != c.params && cp.tsrParams != c.tsrParams
 //@   assume-at call copyWithResize[github.com/tigerwill90/fox.Params github.com/tigerwill90/fox.Param]#2 : pool-discipline: cp != nil && cp != c && cp.params != nil && cp.tsrParams != nil && cp.params != c.params && cp.tsrParams != c.tsrParams
 //@   ensures copy: dyntypeIs(result, *cTx) && unbox(result, *cTx) != nil && unbox(result, *cTx).req == r && unbox(result, *cTx).w == w && unbox(result, *cTx).route == c.route && unbox(result, *cTx).scope == c.scope && unbox(result, *cTx).tsr == c.tsr
@@ -53,6 +54,8 @@ package fox
 
 //@ func (*cTx).Close props C12 partial
 //@   requires c != nil && c.tree != nil
+//@   modifies released[box(c)]
+//@   ensures returned: released[box(c)]
 
 //@ -- ---------------------------------------------------------------- C12: Clone snapshots the current writer
 //@ fun wSize(w ResponseWriter, epoch int) int
